@@ -156,6 +156,10 @@ func Finish(res *Result, m Meta) int {
 	}
 	_ = os.MkdirAll(filepath.Join(Root(), "evidence"), 0o755)
 	bz, _ := json.MarshalIndent(ev, "", " ")
+	// a per-tier copy is kept next to it, so that the record of the last thorough run survives the
+	// next quick run
+	_ = os.MkdirAll(filepath.Join(Root(), "evidence", "by-tier"), 0o755)
+	_ = os.WriteFile(filepath.Join(Root(), "evidence", "by-tier", m.Property+"-"+m.Tier+".json"), bz, 0o644)
 	if err := os.WriteFile(filepath.Join(Root(), "evidence", m.Property+".json"), bz, 0o644); err != nil {
 		fmt.Println("HARNESS-ERROR cannot write evidence:", err)
 		return 2
